@@ -1410,9 +1410,29 @@ impl Engine for C04 {
         // a history costs well under a millisecond; rendering an error may take up to 10 s
         25
     }
-    fn run(&self, _run: u64, seed: u64, tier: Tier, out: &mut RunOut) {
+    fn run(&self, run: u64, seed: u64, tier: Tier, out: &mut RunOut) {
         let mut r = Rng::new(seed);
-        let (plan, fam) = gen_plan(&mut r, tier);
+        // the first runs of every batch sweep the jet tables: every Core and Elements jet once as a
+        // typed leaf ("all Core/Elements jets as typed leaves" is a finite set: it is enumerated,
+        // not sampled), in two small DAGs each
+        let n_core = Family::Core.n_jets() as u64;
+        let n_all = n_core + Family::Elements.n_jets() as u64;
+        let (plan, fam) = if run < 2 * n_all {
+            let i = run % n_all;
+            let (family, idx) = if i < n_core { (Family::Core, i as usize) } else { (Family::Elements, (i - n_core) as usize) };
+            let leaf = |k: DK| DNode { k, kids: vec![] };
+            let nodes = if run < n_all {
+                // comp(jet, unit): the jet's arrow as the library builds it from the type names
+                vec![leaf(DK::Jet(idx)), leaf(DK::Unit), DNode { k: DK::Comp, kids: vec![0, 1] }]
+            } else {
+                // pair(jet, jet) with sharing, under a take: source and target are used twice
+                vec![leaf(DK::Jet(idx)), DNode { k: DK::Pair, kids: vec![0, 0] }, DNode { k: DK::Take, kids: vec![1] }]
+            };
+            let orders = all_orders(&nodes, 720);
+            (Plan { family, nodes, root: 2, program: false, orders, observe_every: 1, inject: None, drop_orphans: false }, "jet-sweep")
+        } else {
+            gen_plan(&mut r, tier)
+        };
         out.count(&format!("family_{}", fam.replace('-', "_")), 1);
         out.sample(|| plan.to_json());
         self.exec_plan(&plan, out);
@@ -1536,6 +1556,7 @@ impl Engine for C04 {
             "dags_with_all_orders",
             "family_type_bomb",
             "family_type_bomb_two_stage",
+            "family_jet_sweep",
             "family_occurs_shape",
         ]
     }
